@@ -80,6 +80,68 @@ fn all_entries(input: &[u8], path: &[PathElem]) -> Option<String> {
             let mut c = o.clone();
             let _ = c.take();
         }
+        // every order of filling the lazily parsed cache (through &self) and consuming it (through &mut self)
+        use sonic_rs::JsonValueMutTrait;
+        for order in 0..6 {
+            if let Ok(mut m) = sonic_rs::from_slice::<OwnedLazyValue>(input) {
+                let ptr = entry::to_pointer(path);
+                let first = ptr.first();
+                let read = |m: &OwnedLazyValue| {
+                    let _ = m.as_array().map(|a| a.len());
+                    let _ = m.as_object().map(|o| o.len());
+                    let _ = m.pointer(ptr.iter()).map(|x| x.get_type());
+                };
+                let edit = |m: &mut OwnedLazyValue| {
+                    let _ = m.as_array_mut().map(|a| a.len());
+                    let _ = m.as_object_mut().map(|o| o.len());
+                    if let Some(f) = first {
+                        if let Some(x) = m.get_mut(f) {
+                            let _ = x.take();
+                        }
+                    }
+                    let _ = m.pointer_mut(ptr.iter()).map(|x| x.take());
+                };
+                match order {
+                    0 => edit(&mut m),
+                    1 => {
+                        read(&m);
+                        edit(&mut m);
+                    }
+                    2 => {
+                        read(&m);
+                        let c = m.clone();
+                        edit(&mut m);
+                        read(&c);
+                    }
+                    3 => {
+                        let mut c = m.clone();
+                        read(&m);
+                        edit(&mut c);
+                        read(&c);
+                    }
+                    4 => {
+                        edit(&mut m);
+                        read(&m);
+                        edit(&mut m);
+                    }
+                    _ => {
+                        read(&m);
+                        let mut c = m.clone();
+                        drop(m);
+                        edit(&mut c);
+                        m = c;
+                    }
+                }
+                let _ = sonic_rs::to_string(&m);
+            }
+        }
+        // values serialized into an owned lazy value are read like any other
+        if let Ok(v) = sonic_rs::from_slice::<Value>(input) {
+            if let Ok(o) = sonic_rs::to_lazyvalue(&v) {
+                let _ = (o.get_type(), o.is_null(), o.as_bool(), o.as_number(), o.as_str().map(|s| s.len()));
+                let _ = sonic_rs::to_string(&o);
+            }
+        }
     }));
     note("iterators", guarded(|| {
         for x in sonic_rs::to_array_iter(input).take(200) {
